@@ -23,6 +23,17 @@ def families(tier, seed):
     for k, es in enumerate(graphgen.all_digraphs(3)):
         if k % step == 0:
             cfgs.append(("param3", graphgen.graph_cfg(0, set(), n_params=3, param_edges=es)))
+    # the same structures with the references written in descending order and with text between them
+    for k, es in enumerate(graphgen.all_digraphs(3)):
+        if (k + 1) % step == 0:
+            cfgs.append(("param3-desc", graphgen.graph_cfg(0, set(), n_params=3, param_edges=es, order="desc", param_sep="://")))
+            cfgs.append(("svc3-desc", graphgen.graph_cfg(3, es, order="desc")))
+    # references to undeclared services before / after the edge that closes a cycle (decided with --ignore-missing-services too)
+    rg = random.Random("%s/c07ghost" % seed)
+    for k, es in enumerate(graphgen.all_digraphs(3)):
+        if (k + 2) % (step * 2) == 0:
+            gh = {i: rg.choice(["first", "last"]) for i in range(3) if rg.random() < 0.6}
+            cfgs.append(("svc3-ghost", graphgen.graph_cfg(3, es, ghosts=gh, order=rg.choice(["asc", "desc"]))))
     # tags: 2 services + tags t0,t1 carried / requested in every way (edges through !tagged), + decorators on tags
     r = random.Random("%s/c07tags" % seed)
     combos = []
@@ -99,7 +110,7 @@ def run(tier, seed, replay):
     fams = families(tier, seed)
     specs = []
     for k, (fam, cfg) in enumerate(fams):
-        sp = common.mk_spec(k, [cfg])
+        sp = common.mk_spec(k, [cfg], flags={"ignore_services": True} if fam == "svc3-ghost" else None)
         sp["what"] = [fam]
         sp["cfg"] = cfg
         specs.append(sp)
